@@ -300,7 +300,7 @@ def run_closed_raw(ctx, su, pairs=None):
     t0 = time.time()
     rng = ctx.rng
     if pairs is None:
-        n = 260 if ctx.quick() else 3500
+        n = 200 if ctx.quick() else 3500
         pairs = list(RAW_WITNESS) + [gen_pair(rng, su.gen) for _ in range(n)]
     texts = [json.dumps(p, ensure_ascii=False) for p in pairs]
     reqs = [{"sidecar": [[c, c06.enc(e)] for c, e in p["sidecar"].items()], "header": p["header"], "rows": p["rows"],
